@@ -373,6 +373,7 @@ def monitor(spec, t):
         out.append({"signature": sig, "what": what, "detail": detail})
 
     expected = []
+    skew = False  # a report that had to be rejected was delivered: already reported, counts are off
     clock_ok = True
     last_now = None
     for i, c in enumerate(calls):
@@ -389,9 +390,13 @@ def monitor(spec, t):
             if c["written"] != "":
                 F("c18:rejected-report-wrote", f"call {i}: rejected by assertion but wrote {c['written'][:80]!r}")
             continue
+        if isinstance(exc, AttributeError) and not spec["ctor"].get("add_time", True):
+            F("c18:add-time-false-raises", f"call {i}: Reporter(add_time=False) raised {exc!r}")
+            continue
         if unser:
             if exc is None and tagged and "null" in c["written"]:
                 F("c18:unserialisable-reported-as-null", f"call {i}: unserialisable value written as {c['written'][:120]!r}")
+                skew = True
             elif not isinstance(exc, TypeError):
                 F("c18:unserialisable-not-rejected", f"call {i}: unserialisable value: expected TypeError, got "
                   f"{type(exc).__name__ if exc else 'accepted'}; wrote {c['written'][:120]!r}")
@@ -407,11 +412,8 @@ def monitor(spec, t):
                 F("c18:rejected-report-wrote", f"call {i}: oversized report wrote a tagged line")
             continue
         if exc is not None:
-            if isinstance(exc, AttributeError) and not spec["ctor"].get("add_time", True):
-                F("c18:add-time-false-raises", f"call {i}: Reporter(add_time=False) raised {exc!r}")
-            else:
-                F("c18:valid-report-raised", f"call {i}: serialisable report with admissible keys raised {exc!r}",
-                  {"kw": c["spec"]})
+            F("c18:valid-report-raised", f"call {i}: serialisable report with admissible keys raised {exc!r}",
+              {"kw": c["spec"]})
             continue
         expected.append((i, rs.py_normalise(c["kw"]), c["now"]))
         if last_now is not None and c["now"] < last_now:
@@ -422,6 +424,8 @@ def monitor(spec, t):
             F("c18:retrieve-raised", f"retrieve ({how}) raised {r['err']} on a stream without forged marker")
             continue
         got = r["dicts"]
+        if skew:
+            continue
         if len(got) != len(expected):
             F("c18:report-count", f"retrieve ({how}) returned {len(got)} dictionaries for {len(expected)} accepted reports")
             continue
